@@ -106,6 +106,18 @@ class DictVal:
         return f"DictVal({list(self.keyvals.values())!r})"
 
 
+class MapVal:
+    """Mutable dict with symbolic keys in closure form: lookup(key value) -> (present: z3 Bool, value)."""
+    __slots__ = ("lookup", "tag")
+
+    def __init__(self, lookup, tag=""):
+        self.lookup = lookup
+        self.tag = tag
+
+    def __repr__(self):
+        return f"MapVal<{self.tag}>"
+
+
 class SetVal:
     __slots__ = ("items",)
 
